@@ -71,32 +71,26 @@ func (b *BoundedIterator) SeekToFirst() {
 // SeekToLast positions at the last key in the bounded range
 func (b *BoundedIterator) SeekToLast() {
 	if b.end != nil {
-		// If we have an end bound, seek to it
-		// The current implementation might not be efficient for finding the last
-		// key before the end bound, but it works for now
-		b.Iterator.Seek(b.end)
-
-		// If we landed exactly at the end bound, back up one
-		if b.Iterator.Valid() && bytes.Equal(b.Iterator.Key(), b.end) {
-			// We need to back up because end is exclusive
-			// This is inefficient but correct
+		// The end bound is exclusive and need not be a stored key: walk forward
+		// from the start of the range and remember the last key below the bound
+		// (inefficient but correct)
+		if b.start != nil {
+			b.Iterator.Seek(b.start)
+		} else {
 			b.Iterator.SeekToFirst()
-
-			// Scan to find the last key before the end bound
-			var lastKey []byte
-			for b.Iterator.Valid() && bytes.Compare(b.Iterator.Key(), b.end) < 0 {
-				lastKey = b.Iterator.Key()
-				b.Iterator.Next()
-			}
-
-			if lastKey != nil {
-				b.Iterator.Seek(lastKey)
-			} else {
-				// No keys before the end bound
-				b.Iterator.SeekToFirst()
-				// This will be marked invalid by checkBounds
-			}
 		}
+
+		var lastKey []byte
+		for b.Iterator.Valid() && bytes.Compare(b.Iterator.Key(), b.end) < 0 {
+			lastKey = append(lastKey[:0], b.Iterator.Key()...)
+			b.Iterator.Next()
+		}
+
+		if lastKey != nil {
+			b.Iterator.Seek(lastKey)
+		}
+		// Otherwise the iterator is exhausted or on a key >= end: checkBounds
+		// reports it as invalid
 	} else {
 		// No end bound, seek to the last key
 		b.Iterator.SeekToLast()
